@@ -23,14 +23,16 @@ META = dict(
     text="TLC enumerates every constructor and option combination (manual, random, round-robin, hash, reference hash, "
          "NewCustomHashPartitioner, NewCustomPartitioner with every subset of WithAbsFirst / WithCustomHashFunction / "
          "WithCustomFallbackPartitioner) x every corner int32 hash {-2^31, -2^31+1, -n-1..n+1, multiples of n +-1 up to the "
-         "int32 limits, 2^31-2, 2^31-1} and FNV keys, nil and empty keys x n in 1..16, all 3-call behaviours over a small key "
+         "int32 limits, 2^31-2, 2^31-1} and FNV keys, nil keys and keys without bytes in each spelling (ByteEncoder{}, "
+         "StringEncoder(\"\"), ByteEncoder(nil)) x n in 1..16, all 3-call behaviours over a small key "
          "set, all round-robin call sequences of length 6 with n in 1..4 changing freely, seeded long behaviours, and every "
          "interleaving of the calls (split into Reset+Write / Sum32) of two instances handed out by one constructor value; for the "
          "producer every topic with 1..3 partitions (thorough: 4) x every leaderless subset x 9 partitioner kinds (built-in, "
-         "custom static/dynamic consistency, scripted out-of-range/negative/error returns) x every 2-message input, plus recovery "
+         "custom static/dynamic consistency, scripted out-of-range/negative/error returns) x every 2-message input (hash kinds: "
+         "keys hashing to every index, keyless, and the three spellings of a key without bytes), plus recovery "
          "scenarios (all partitions leaderless for 3/4 (thorough 6) messages, then leaders back for every smaller leaderless "
          "set, then 2 messages; circuit breakers of topic and partition workers modelled). Range, "
-         "equal-keys, Java-reference arithmetic, legacy arithmetic, manual, round-robin cycling, offered-list rule, "
+         "equal-keys, hashed-message-requires-consistency, Java-reference arithmetic, legacy arithmetic, manual, round-robin cycling, offered-list rule, "
          "sent-to-chosen, invalid/no-partition => error-and-unsent and available-partitions-are-offered (also after a recovery) "
          "are invariants of the models and clauses of the observer "
          "evaluated by TLC on what the real code did.",
@@ -41,7 +43,7 @@ META = dict(
     design_ref="6/C17",
 )
 
-PART_CLAUSES = ["in_range", "manual_returns_own", "reference_matches_java", "legacy_abs_of_remainder",
+PART_CLAUSES = ["in_range", "hashed_message_requires_consistency", "manual_returns_own", "reference_matches_java", "legacy_abs_of_remainder",
                 "equal_keys_equal_partitions", "roundrobin_cycles"]
 PROD_CLAUSES = ["keyed_consistent_offered_all", "others_offered_writable_only", "no_partition_fails_unsent",
                 "invalid_choice_fails_unsent", "sent_to_chosen_partition", "available_partitions_are_offered"]
@@ -55,6 +57,7 @@ def model_runs(ctx):
             ("rr", "Partitioner", "Partitioner.rr.cfg", "gen-part"),
             ("sim", "Partitioner", "Partitioner.sim.cfg", "sim"),
             ("asis", "Partitioner", "Partitioner.asis.cfg", "expect:NoCrash"),
+            ("emptykey", "Partitioner", "Partitioner.emptykey.cfg", "expect:HashedRequiresConsistency"),
             ("pair", "PartitionerPair", "PartitionerPair.quick.cfg", "gen-part"),
             ("pair-shared", "PartitionerPair", "PartitionerPair.shared.cfg", "expect:OwnKeyDecides"),
             ("routing", "PartitionerRouting", "PartitionerRouting.quick.cfg", "gen-prod"),
